@@ -84,6 +84,12 @@ def actArg (ts : List String) (k : String) : Option Act :=
   | none => some .pass
   | some s => parseAct s
 
+/-- `<k>`: the id of key k as `to_peer_id()` derives it; `h<k>`: its SHA2-256 form. -/
+def expArg? (s : String) : Option (IdForm × Nat) :=
+  match s.toList with
+  | 'h' :: rest => ((String.ofList rest).toNat?).filter (· < KEYS) |>.map fun i => (IdForm.sha256, i)
+  | _ => (s.toNat?).filter (· < KEYS) |>.map fun i => (IdForm.derived, i)
+
 def peerName (p : PeerId) : String :=
   match (List.range KEYS).find? (fun i => match peerIdOfEncoding E.c (keyEncoding (freePub i)) with
       | .ok q => decide (q = p)
@@ -205,7 +211,7 @@ offset `flip - 62` of the framed message), dialed-peer test, `/yamux` negotiatio
 def nc (ts : List String) : String :=
   match idx? ts "d", idx? ts "l", arg? "dialed" ts with
   | some d, some l, some dl =>
-    let dialed : Option (Option Nat) := if dl = "none" then some none else (idx? ts "dialed").map some
+    let dialed : Option (Option (IdForm × Nat)) := if dl = "none" then some none else (expArg? dl).map some
     let flip : Option (Option Nat) := match arg? "flip" ts with
       | none => some none
       | some s => match s.toNat? with
@@ -217,10 +223,7 @@ def nc (ts : List String) : String :=
         | none => .pass
         | some o => .flip (o - 62) 1
       let r := resolve false (run1 E ⟨d, 1, 2⟩ ⟨l, 3, 4⟩ (scripted false .pass .pass a3))
-      let dialedId : Option PeerId := dialed.bind fun i =>
-        match peerIdOfEncoding E.c (keyEncoding (freePub i)) with
-        | .ok p => some p
-        | .error _ => none
+      let dialedId : Option PeerId := dialed.bind fun (f, i) => expectedIdOf E.c f (keyEncoding (freePub i))
       let conn := negotiateConn dialedId r
       let dres := match r.1 with
         | .ok P _ => if conn.1 then "ok:" ++ peerName P
@@ -249,16 +252,16 @@ def tp (ts : List String) : String :=
     | some "open" => some .open | some "dial" => some .dial | _ => none
   match idx? ts "d", idx? ts "l", arg? "exp" ts, host, via with
   | some d, some l, some ex, some host, some via =>
-    let expected : Option (Option Nat) := if ex = "none" then some none else (idx? ts "exp").map some
+    let expected : Option (Option (IdForm × Nat)) := if ex = "none" then some none else (expArg? ex).map some
     match expected with
     | none => "bad-op"
     | some expected =>
       let r := resolve false (run1 E ⟨d, 1, 2⟩ ⟨l, 3, 4⟩ (scripted false .pass .pass .pass))
       let suffix : DialedAddr := match expected with
         | none => []
-        | some i => match peerIdOfEncoding E.c (keyEncoding (freePub i)) with
-          | .ok p => [.p2p p]
-          | .error _ => [.other]
+        | some (f, i) => match expectedIdOf E.c f (keyEncoding (freePub i)) with
+          | some p => [.p2p p]
+          | none => [.other]
       let addr : DialedAddr := [.host host, .tcp] ++ suffix
       let okWord := match via with | .open => "opened:" | .dial => "established:"
       let errWord := match via with | .open => "openfail:" | .dial => "dialfail:"
@@ -347,6 +350,33 @@ def pn (ts : List String) : String :=
       "] opened=[" ++ pnKeys n t2.opened ++ "] popen=[" ++ pnKeys n t2.pendingOpen ++ s!"] rej={verdicts} lost={size t2}"
   | _, _, _, _ => "bad-op"
 
+open Litep2pVerif.Tcp.Poll in
+/-- `dl a=<s|r|k>* t=<ms> [cancel=<ms>]`: `TcpTransport::open` against addresses that stall / refuse / answer, polled by
+an executor (`Model/Tcp/Poll.lean`: `afterOpen`, `drain`). -/
+def dl (ts : List String) : String :=
+  if ts.any (fun a => !(a.toList.contains '=')) then "bad-op" else
+  match arg? "env" ts with
+  | some w => "D=env:" ++ w
+  | none =>
+  let kinds : Option (List AddrKind) := (arg? "a" ts).bind fun s =>
+    s.toList.mapM fun | 's' => some AddrKind.stall | 'r' => some .refuse | 'k' => some .answer | _ => none
+  let t := ((arg? "t" ts).bind String.toNat?).filter fun t => 100 ≤ t ∧ t ≤ 1000
+  let cancel : Option (Option Nat) := match arg? "cancel" ts with
+    | none => some none
+    | some s => ((s.toNat?).filter (· ≤ 1000)).map some
+  match kinds, t, cancel with
+  | some kinds, some t, some cancel =>
+    if kinds.isEmpty || kinds.length > 4 then "bad-op" else
+    let t0 := afterOpen 7 t Consts.DIAL_DEADLINE_MULTIPLIER kinds cancel
+    let (ev, t1) := drain (size t0 + 1) t0
+    let word := match ev with
+      | [] => "silent"
+      | [.openFailure 7] => "openfail"
+      | [.opened 7] => "opened"
+      | _ => "other"
+    s!"D={word} handles={t1.handles.length} lost={size t1}"
+  | _, _, _ => "bad-op"
+
 def step (st : State) (line : String) : State × String :=
   match tokens line with
   | "pv" :: rest => (st, pv rest)
@@ -355,6 +385,7 @@ def step (st : State) (line : String) : State × String :=
   | "nc" :: rest => (st, nc rest)
   | "tp" :: rest => (st, tp rest)
   | "pn" :: rest => (st, pn rest)
+  | "dl" :: rest => (st, dl rest)
   | _ => (st, "bad-op")
 
 end Litep2pVerif.Driver.C01
